@@ -26,6 +26,10 @@ CHECKS = {
    text='Ghost positions: for every node object the executor keeps ghost.pos/ghost.end equal to the documented position expression of its type over its fields and the ghost positions of its children (agreement of ast/pos.go with the documentation is C19), and a ghost predicate pf = `0 <= pos <= end, every non-nil child is pf and lies inside [pos,end], node-typed fields in declaration order do not overlap (CreateTable exempt), slice elements are pf, ordered, and between the first and the last`. Proved for the productions listed in the evidence (about 250 of 290 functions): the returned node is pf and lies between the first token the production looked at (or the position/node handed in by the caller) and the current token, hence inside the input. Keyword-length arithmetic (End = Pos + n) is discharged against the lexer contract `a keyword or punctuation token is as long as its kind`.',
    note='Functions whose position clauses are not yet discharged are listed one by one in /repo/verif_contracts_unproved.go and in coverage.clauses_assumed_not_proved: for them pf/range is assumed by callers, not proved (no bounded stand-in is substituted). Token alignment (Pos is the start of a token, End the end of one) and `Pos < End` on error-free paths are not stated separately. Mutation of already-built nodes at the five in-place sites is handled by recomputing the ghosts at the store; that no parent holds a stale snapshot is not mechanised.',
    ref='§4.C05'),
+ 'C07': dict(
+   text='(1) exprPrec equals the GoogleSQL precedence table written as spec functions in the contract file, for every node type that implements Expr and every operator constant, and is total over all of them (proved on the real switch). (2) A ghost precedence per expression node (that same table) and, for each precedence-level production parseOr ... parseMulDiv, parseUnary, parseSelector, parseLit, parseNot, parseComparison, the postcondition `the result binds at most at this level and is parenfree`: the left operand of a binary node is at most the operator\'s level, the right operand strictly tighter (left associativity), comparison-family operands strictly below the comparison level (non-associative), operands of unary operators / field and subscript access at most that level; loop invariants carry this through operator chains. (3) Structurally: operator nodes are allocated only inside those productions. Together: on every parser-built tree the parenthesising branch of paren() is dead, and the grouping is the table\'s.',
+   note='Not covered: that explicit parentheses always survive as ParenExpr around exactly the parenthesised operand is visible in parseParenExpr but not stated as a clause; that ast/sql.go prints `left op right` and adds parentheses only through paren() is not verified (a printer change that wraps an operand by hand is not detected). The table itself (about 10 lines of //@ spec) is the trusted specification.',
+   ref='§4.C07'),
  'C09': dict(
    text='Error contract of the parser: every production leaves len(errors) monotone; lookahead helpers restore the lexer state exactly and leave errors untouched (a lexical error propagates, it is not swallowed); handleError appends exactly one error and every recovery handler goes through it exactly once before building its Bad node (len(errors) == old + 1); every *Error is built from a position pair with 0 <= Pos <= End <= len(input) (precondition of errorfAtToken / errorfAtPosition / panicfAtToken, checked at each of the ~170 call sites, and of File.Position); public Parse* return a nil error iff no error was recorded and the current token is <eof> at len(input), and a MultiError with at least one element otherwise.',
    note='"At least one MultiError element per BadNode in the tree" is proved in the form: each of the four handlers records exactly one error per Bad node it builds and nothing else allocates ast.BadNode (checked syntactically over the SSA); the count over the reachable tree is the sum over handler calls and is not itself mechanised.',
